@@ -59,6 +59,11 @@ func c17(r *core.Report, p *core.Prog, thorough bool) {
 				big, small = c.Y, c.X
 			}
 			sd := describe(small)
+			for _, lv := range ValueLeaves(small, 1) { // the balance may be read by a helper that returns it
+				if strings.Contains(describe(lv), "GetClientBalance") {
+					sd = describe(lv)
+				}
+			}
 			switch {
 			case strings.Contains(sd, "GetClientBalance"):
 				limits["balance"] = big
